@@ -177,7 +177,8 @@ func cmpsIn(pk *packages.Package, fd *ast.FuncDecl, fn string, subst map[types.O
 
 func collectCmps(p *Prog) map[string][]cmpSite {
 	polyInline = inlinableFuncs(p)
-	defer func() { polyInline = nil }()
+	polyInlineNamed = true
+	defer func() { polyInline, polyInlineNamed = nil, false }()
 	out := map[string][]cmpSite{}
 	cmpDecls = map[string]cmpDecl{}
 	p.funcDecls(func(pk *packages.Package, fd *ast.FuncDecl) {
@@ -369,6 +370,7 @@ type cmpSpec struct {
 	count int      // expected number of matching comparisons (0 = 1)
 	abs   string   // the comparison with locals named by type, canonical (canonCutAbs): finds it again after a rename
 	res   string   // the comparison with single-definition locals substituted, canonical (canonCut): finds it again after a local was introduced or inlined
+	ra    string   // type-named AND resolved: a renamed local keeps it, a local defined from something else does not
 	rop   string   // the operator under which the path is refused (refusalOp), "" when the comparison governs no refusal
 	mk    string   // when rop was read off an ACTION: the field/function/constant of that action it was read from (see markRop)
 	typ   string   // optional: operand type name (e.g. "Checkpoint") instead of atoms
@@ -431,7 +433,7 @@ func init() {
 						ropS, mkS = r.String(), mk
 					}
 				}
-				fmt.Printf("%-55s %-2s  P=%-60s  // %s\t%s\t%s\t%s\t%s\n", fn, s.op, s.p.String(), s.text, canonCutAbs(s.pa, s.op), canonCut(s.pr, s.op), ropS, mkS)
+				fmt.Printf("%-55s %-2s  P=%-60s  // %s\t%s\t%s\t%s\t%s\t%s\n", fn, s.op, s.p.String(), s.text, canonCutAbs(s.pa, s.op), canonCut(s.pr, s.op), ropS, mkS, canonCutAbs(s.pra, s.op))
 			}
 		}
 		os.Exit(0)
@@ -571,6 +573,23 @@ func ruleCmpSpec(c *Ctx) {
 			}
 			if nm != nil {
 				c.bad(key, nm.pos, "%s: the spec's comparison (%s) is not made; instead `%s` compares %s", g.fn, specStr, nm.text, why)
+				continue
+			}
+			// the reviewed shape is there (same types, same constants) on an unaccounted comparison, but read through
+			// its locals it compares something else: a same-typed value was put in the operand's place
+			var shape *cmpSite
+			for i := range sites {
+				if claimed[sites[i].pos] || sites[i].from != "" {
+					continue
+				}
+				for _, e := range g.entries {
+					if e.abs != "" && canonCutAbs(sites[i].pa, sites[i].op) == e.abs && e.ra != "" && canonCutAbs(sites[i].pra, sites[i].op) != e.ra {
+						shape = &sites[i]
+					}
+				}
+			}
+			if shape != nil {
+				c.bad(key, shape.pos, "%s: the spec's comparison (%s) is not made; `%s` has its shape but, read through its locals, compares %s where the reviewed code compares %s: another value of the same type was put in an operand's place", g.fn, specStr, shape.text, canonCut(shape.pr, shape.op), g.entries[0].res)
 				continue
 			}
 			c.unm(key, sites[0].pos, "comparison not found in %s (spec: %s)", g.fn, specStr)
@@ -893,7 +912,9 @@ func cmpAbsMatch(fn string, entries []cmpSpec, atoms []string, sites []cmpSite, 
 				if used[i] || claimed[sites[i].pos] {
 					continue
 				}
-				if canonCutAbs(sites[i].pa, sites[i].op) == e.abs || (e.res != "" && canonCut(sites[i].pr, sites[i].op) == e.res) {
+				// a renamed local (same shape by type, and the same once locals are read through), or the same
+				// comparison with a value moved into / out of a local
+				if (canonCutAbs(sites[i].pa, sites[i].op) == e.abs && (e.ra == "" || canonCutAbs(sites[i].pra, sites[i].op) == e.ra)) || (e.res != "" && canonCut(sites[i].pr, sites[i].op) == e.res) {
 					hit = i
 					break
 				}
